@@ -48,7 +48,7 @@ def main(argv):
     res["lines"] = sorted([b, q, l] for (b, q, l) in cov.hit)
     tmp = out + ".tmp"
     with open(tmp, "w") as f:
-        json.dump(res, f)
+        json.dump(res, f, default=repr)
     os.replace(tmp, out)
     faulthandler.cancel_dump_traceback_later()
     return 0
